@@ -2,9 +2,8 @@
     (reference semantics, fragment [frag]). *)
 From Coq Require Import List NArith ZArith Bool Lia.
 Import ListNotations.
-From LV Require Import Model.Base Model.Template Model.Eval Model.Derived Model.EvalRun
-  Proofs.BaseProofs Proofs.EvalProofs Proofs.EvalInd Proofs.EvalUnfold Proofs.FrameProofs
-  Proofs.FrameTheorem Proofs.SufficientProofs.
+From LV Require Import Model.Base Model.Template Model.Eval Model.Derived Model.EvalRun Proofs.BaseProofs Proofs.EvalProofs Proofs.EvalInd Proofs.EvalUnfold.
+From LV Require Import Proofs.FrameProofs Proofs.FrameTheorem Proofs.SufficientProofs.
 
 Section KeysPresent.
   Variable u : N -> list value -> cres.
